@@ -1873,7 +1873,9 @@ class Cluster(object):
 
             log.info("Connection pools established for node %s", host)
             # mark the host as up and notify all listeners
-            host.set_up()
+            with host.lock:
+                # on_down() reads and writes is_up under this lock
+                host.set_up()
             for listener in self.listeners:
                 listener.on_up(host)
         finally:
@@ -1903,6 +1905,12 @@ class Cluster(object):
 
             if host.is_up:
                 log.debug("Host %s was already marked up", host)
+                return
+
+            if host._currently_handling_node_down:
+                # on_down() has marked the host down and is still telling everyone; the
+                # reconnector it starts will bring the host back
+                log.debug("Another thread is still handling down status of node %s", host)
                 return
 
             host._currently_handling_node_up = True
@@ -2028,17 +2036,25 @@ class Cluster(object):
                 # or tells the policies and starts a new reconnector itself
                 return
 
-        log.warning("Host %s has been marked down", host)
+            if host._currently_handling_node_down:
+                return
+            host._currently_handling_node_down = True
 
-        self.profile_manager.on_down(host)
-        self.control_connection.on_down(host)
-        for session in tuple(self.sessions):
-            session.on_down(host)
+        try:
+            log.warning("Host %s has been marked down", host)
 
-        for listener in self.listeners:
-            listener.on_down(host)
+            self.profile_manager.on_down(host)
+            self.control_connection.on_down(host)
+            for session in tuple(self.sessions):
+                session.on_down(host)
 
-        self._start_reconnector(host, is_host_addition)
+            for listener in self.listeners:
+                listener.on_down(host)
+
+            self._start_reconnector(host, is_host_addition)
+        finally:
+            with host.lock:
+                host._currently_handling_node_down = False
 
     def on_add(self, host, refresh_nodes=True):
         if self.is_shutdown:
